@@ -370,7 +370,11 @@ def declare(reg):
     reg.external("get_dependencies", params=dict(component=Comp), returns=Set(Comp), pure=True, ensures=["result == deps_of(component)"],
                  note="get_dependencies(c) is the delegate's dependency set; read-only")
     reg.external("get_dependents", params=dict(component=Comp), returns=Set(Comp), pure=True, ensures=["result == dependents_of(component)"])
-    reg.glob(M, DEPENDENCIES=Map(Comp, Set(Comp)))
+    reg.glob(M, DEPENDENCIES=Map(Comp, Set(Comp)), COMPONENTS=Map(U("Group"), Map(Comp, Set(Comp))))
+    reg.cls("Delegate", group=U("Group"))
+    reg.defaultdicts.update({"DEPENDENCIES": "set()"})
+    reg.external("add_dependent", params=dict(component=Comp, dep=Comp), modifies=["DEPENDENTS"],
+                 note="add_dependent(c, d): DEPENDENTS[c].add(d)")
     reg.specfun("nbr", dict(x=Comp, y=Comp), BOOL, "y in deps_of(x) or y in dependents_of(x)")
     reg.contract(M, "get_subgraphs", params=dict(graph=Map(Comp, Set(Comp))), yields=Map(Comp, Set(Comp)),
                  # DEPENDENTS is the inverse of the delegates' dependency sets (established by ComponentType.__call__ / add_dependency)
